@@ -7,6 +7,7 @@ import (
 	"net/http"
 	"net/http/httptest"
 	"runtime"
+	"strings"
 	"sync"
 	"time"
 
@@ -78,7 +79,8 @@ type inflightDriver struct {
 	srcOf map[string]string
 	mkReq func(id, src string) *http.Request
 
-	precancel bool // the next request arrives with a cancelled context
+	precancel  bool // the next request arrives with a cancelled context
+	hostTokens bool // sources are told apart by the Host header
 }
 
 func newInflightDriver(h http.Handler, g *gateHandler) *inflightDriver {
@@ -107,6 +109,11 @@ func (d *inflightDriver) start(id, src string) (admitted bool, res reqResult) {
 	}
 	req.Header.Set("X-Req", id)
 	req.Header.Set("X-Src", src)
+	// the token the limiter sees when the scenario asks for another spelling of the source (capitals, dots, a port)
+	req.Header.Set("X-Token", "Tenant-"+strings.ToUpper(src)+".Example.COM")
+	if d.hostTokens {
+		req.Host = "Api-" + strings.ToUpper(src) + ".Example.COM:8443"
+	}
 	if req.RemoteAddr == "" || req.RemoteAddr == "192.0.2.1:1234" {
 		req.RemoteAddr = srcAddr(src)
 	}
@@ -159,8 +166,13 @@ func (d *inflightDriver) finish(id, how string) (reqResult, bool) {
 
 func newConnLimiter(cfg M, next http.Handler) *connlimit.ConnLimiter {
 	variable := "request.header.X-Src"
-	if strOr(cfg, "extract", "header") == "ip" {
+	switch strOr(cfg, "extract", "header") {
+	case "ip":
 		variable = "client.ip"
+	case "token":
+		variable = "request.header.X-Token"
+	case "host":
+		variable = "request.host"
 	}
 	ex, err := utils.NewExtractor(variable)
 	if err != nil {
@@ -178,6 +190,7 @@ func runConn(sc Scenario, tr *Trace, seed int64) {
 	g := newGateHandler()
 	cl := newConnLimiter(sc.Cfg, g)
 	d := newInflightDriver(cl, g)
+	d.hostTokens = strOr(sc.Cfg, "extract", "header") == "host"
 	tr.Emit(M{"e": "Reset", "scn": sc.ID, "cfg": M{"max": num(sc.Cfg, "max")}})
 	state := map[string]string{}
 	for _, st := range sc.Steps {
